@@ -1,6 +1,7 @@
 #!/usr/bin/env python3
-"""Print the markdown tables of DESIGN.md §10 from seeded/*/ and refactors/*/ and the
-matrix logs (seeded/MATRIX.txt, refactors/MATRIX.txt) written by tools/matrix.sh."""
+"""Write seeded/TABLE.md and refactors/TABLE.md (referenced from DESIGN.md §10) from seeded/*/ and
+refactors/*/ and the matrix logs (seeded/MATRIX.txt, refactors/MATRIX.txt) written by
+tools/matrix.sh; prints a one-line summary of each."""
 import json, os, re, sys
 root = os.path.join(os.path.dirname(os.path.abspath(__file__)), '..')
 
@@ -38,7 +39,15 @@ def rules_for(d, prop):
                     rules.add(m.group(1))
     return sorted(rules)
 
+_out = None
+def print(*a):
+    _out.write(' '.join(str(x) for x in a) + '\n')
+
 sm = matrix(os.path.join(root, 'seeded', 'MATRIX.txt'))
+_out = open(os.path.join(root, 'seeded', 'TABLE.md'), 'w')
+print('Seeded changes (each breaks the property in its name; confirmed by tools/seed_confirm.sh) and the')
+print('properties whose quick check reports them. `rule?` = reported through an undecided obligation.')
+print()
 print('| change | what it does | own property reports | also reported by |')
 print('|---|---|---|---|')
 for name in sorted(os.listdir(os.path.join(root, 'seeded'))):
@@ -53,8 +62,12 @@ for name in sorted(os.listdir(os.path.join(root, 'seeded'))):
         own = '**no**' if not mine else (mine[0][len(prop):].strip('[]') or 'yes')
         others = ' '.join(h.split('[')[0] for h in hits if not h.startswith(prop))
     print('| %s | %s | %s | %s |' % (name, title(d).replace('|', '/'), own, others or '—'))
-print()
+_out.close()
 rm = matrix(os.path.join(root, 'refactors', 'MATRIX.txt'))
+_out = open(os.path.join(root, 'refactors', 'TABLE.md'), 'w')
+print('Behaviour-preserving refactorings (R*) and property-preserving commits (KC*, KDC*) and the properties')
+print('whose quick check reports them (should be none; the exceptions are in KNOWN_ALARMS.json).')
+print()
 print('| refactor | what it does | reported by (should be none) |')
 print('|---|---|---|')
 for name in sorted(os.listdir(os.path.join(root, 'refactors'))):
@@ -63,3 +76,10 @@ for name in sorted(os.listdir(os.path.join(root, 'refactors'))):
         continue
     hits = rm.get(name, None)
     print('| %s | %s | %s |' % (name, title(d).replace('|', '/'), '?' if hits is None else (' '.join(hits) or 'none')))
+
+_out.close()
+n_s = len([k for k in sm])
+miss = [k for k, h in sm.items() if not any(x.startswith(k.split('-')[0]) for x in h)]
+alarm = [k for k, h in rm.items() if h]
+sys.stdout.write('seeded: %d changes, %d not reported by their own property %s\n' % (n_s, len(miss), miss))
+sys.stdout.write('refactors: %d patches, %d reported %s\n' % (len(rm), len(alarm), alarm))
